@@ -217,6 +217,9 @@ func c182(c *an.Ctx, p *an.Prog) {
 			bad = append(bad, fmt.Sprintf("%d registrations in one iteration", nUpd))
 		}
 	})
+	if len(bad) == 0 && !(nIter >= 2 && len(algos) == 2) {
+		bad = append(bad, fmt.Sprintf("only %d continuing iteration paths registering %d kinds of hasher (%s) were found: both algorithms must be constructible", nIter, len(algos), joinS(sortedKeys(algos))))
+	}
 	c.Check(len(bad) == 0 && nIter >= 2 && len(algos) == 2, "C18.2", fnKey(fc)+"|per-set-guards", p.Pos(fc.Pos()), fmt.Sprintf("%d continuing iteration paths: ID != 0 ∧ exactly one algorithm ∧ constructor err==nil; constructors: %s", nIter, joinS(sortedKeys(algos))), strings.Join(uniqS(bad), "; "))
 }
 
@@ -482,7 +485,7 @@ func kdfPreconditions(c *an.Ctx, p *an.Prog, rule string) {
 			}
 			for _, e := range s.Events {
 				if e.Kind == "store" && e.Args[0].Op == "fieldaddr" && (e.Args[0].Aux == "R" || e.Args[0].Aux == "P") {
-					okPos := false
+					okPos := selfStore(e) // x.R = x.R keeps the library's default
 					for _, a := range s.Atoms {
 						if a.A.K == e.Args[1].K && (a.Op == ">" && a.B.IsConst("0") || a.Op == ">=" && a.B.IsConst("1")) {
 							okPos = true
@@ -569,6 +572,9 @@ func c184(c *an.Ctx, p *an.Prog) {
 		n := 0
 		allowed := map[string]bool{"NewDir": true, "NewDirFromConfig": true, "fromConfig": true}
 		for _, fn := range p.RepoFns {
+			if an.Inlinable(fn) {
+				continue // seen inside the functions it is interpreted in
+			}
 			for _, in := range an.DeepInstrs(fn) {
 				{
 					switch x := in.(type) {
